@@ -34,20 +34,22 @@ type Case struct {
 	KeepAlive   time.Duration
 	CpTicker    time.Duration
 	TargetDbMap map[int]int
+	DbBlacklist []int // source databases filtered out (filter.dbBlacklist)
 	DbMode      string
 	PlanStyle   int
 	PauseUnit   time.Duration
 	NCmds       int
 	PSelect     float64
 	PTxn        float64
+	PTxnSelect  float64
 	PNoise      float64
 	IdleFirst   time.Duration // idle before the first item of every run
 	Base        int64
 }
 
 func (c Case) String() string {
-	return fmt.Sprintf("txn=%v pipe=%v batch=%d/%dB tick=%v ka=%v cp=%v db=%s plan=%d pause=%v n=%d idle1=%v base=%d",
-		c.Txn, c.Pipeline, c.BatchCount, c.BatchBytes, c.BatchTicker, c.KeepAlive, c.CpTicker, c.DbMode, c.PlanStyle, c.PauseUnit, c.NCmds, c.IdleFirst, c.Base)
+	return fmt.Sprintf("txn=%v pipe=%v batch=%d/%dB tick=%v ka=%v cp=%v db=%s black=%v plan=%d pause=%v n=%d idle1=%v base=%d",
+		c.Txn, c.Pipeline, c.BatchCount, c.BatchBytes, c.BatchTicker, c.KeepAlive, c.CpTicker, c.DbMode, c.DbBlacklist, c.PlanStyle, c.PauseUnit, c.NCmds, c.IdleFirst, c.Base)
 }
 
 func (c Case) Mode() string { return fmt.Sprintf("txn=%v|pipe=%v", c.Txn, c.Pipeline) }
@@ -89,6 +91,12 @@ func GenCase(r *rand.Rand, key, bias string) Case {
 		c.NCmds = 6 + r.Intn(14)
 	}
 	c.Base = int64(1000 + r.Intn(1000000))
+	if c.Base%3 == 0 { // a third of the cases: transactions that switch databases inside MULTI/EXEC
+		c.PTxnSelect = 0.35
+	}
+	if (c.Base/3)%3 == 0 { // a third of the cases: one source database is filtered out
+		c.DbBlacklist = []int{1 + int(c.Base/9)%2}
+	}
 	return c
 }
 
@@ -160,6 +168,7 @@ type Group struct {
 	MultiEnd int64
 	ExecEnd  int64
 	IDs      []string
+	KeptEnds []int64 // absolute end offsets of the member writes that pass the filters
 }
 
 func newServer() *fakeredis.Server {
@@ -179,6 +188,9 @@ func (e *Env) cfg(addr string) syncer.RedisOutputConfig {
 	cfg.KeepaliveTicker = c.KeepAlive
 	cfg.UpdateCheckpointTicker = c.CpTicker
 	cfg.TargetDbMap = c.TargetDbMap
+	if len(c.DbBlacklist) > 0 {
+		cfg.Filter = config.FilterConfig{DbBlacklist: c.DbBlacklist}
+	}
 	return cfg
 }
 
@@ -193,9 +205,12 @@ func NewEnv(r *rand.Rand, c Case) (*Env, string) {
 		maxTxn = 10
 	}
 	e.Stream = gen.GenStream(r, gen.StreamOptions{Hist: "h" + strings.TrimPrefix(c.Key, "case-"), NCmds: c.NCmds, MaxDB: 2,
-		PSelect: c.PSelect, PTxn: c.PTxn, PNoise: c.PNoise, MaxTxnLen: maxTxn, StartDB: -1})
+		PSelect: c.PSelect, PTxn: c.PTxn, PTxnSelect: c.PTxnSelect, PNoise: c.PNoise, MaxTxnLen: maxTxn, StartDB: -1})
+	e.PC = drive.ProjCfg{TargetDb: -1, TargetDbMap: c.TargetDbMap, DbBlacklist: c.DbBlacklist}
+	if e.PC.DbOut(e.Stream.LastDB()) { // the completion sentinel must not be filtered out
+		e.Stream.AppendSelect(0)
+	}
 	e.End = e.Stream.AppendSentinel(e.Stream.LastDB())
-	e.PC = drive.ProjCfg{TargetDb: -1, TargetDbMap: c.TargetDbMap}
 	e.Proj = drive.Project(e.Stream, e.PC)
 	e.Ends = map[int64]bool{}
 	gm := map[int]*Group{}
@@ -214,7 +229,10 @@ func NewEnv(r *rand.Rand, c Case) (*Env, string) {
 			case gen.KExec:
 				g.ExecEnd = c.Base + cm.End
 			case gen.KWrite:
-				g.IDs = append(g.IDs, cm.ID)
+				if !e.PC.DbOut(cm.DB) {
+					g.IDs = append(g.IDs, cm.ID)
+					g.KeptEnds = append(g.KeptEnds, c.Base+cm.End)
+				}
 			}
 		}
 	}
